@@ -123,6 +123,14 @@ Theorem C13_guarded_same_object :
 Proof. exact same_object. Qed.
 Print Assumptions C13_guarded_same_object.
 
+(* Guarded slices and maps do not leave their critical section as aliases:
+   what a caller gets (the chat history a joining client replays, the client
+   list, the data map, a drained action queue) is a copy or has been handed
+   over, so that reading it with the lock released touches no shared state. *)
+Theorem C13_no_escaping_state : escaping_guarded_state = [].
+Proof. exact no_escaping_state. Qed.
+Print Assumptions C13_no_escaping_state.
+
 (* A rank on lock classes that increases strictly along every extracted
    edge (lock possibly held -> lock acquired, through the call graph with
    interface dispatch expanded) exists ... *)
